@@ -78,7 +78,7 @@ def chunkings(stream, pkts, tier, rnd):
         if t not in seen and sum(t) == n:
             seen.add(t); return True
         return False
-    limit_all = 12 if tier == "quick" else 15
+    limit_all = 12 if tier == "quick" else 13
     if n <= limit_all:
         for c in compositions(n):
             if emit(c):
@@ -111,12 +111,12 @@ def chunkings(stream, pkts, tier, rnd):
                 yield cuts_to_lengths(n, [c])
     pairs = list(itertools.combinations(pts, 2))
     rnd.shuffle(pairs)
-    for pr in pairs[: ((60 if n < 3000 else 12) if tier == "quick" else 600)]:
+    for pr in pairs[: ((60 if n < 3000 else 12) if tier == "quick" else (400 if n < 3000 else 40))]:
         if emit(cuts_to_lengths(n, pr)):
             yield cuts_to_lengths(n, pr)
     if n <= 80:
         trip = list(itertools.combinations(range(1, n), 3)); rnd.shuffle(trip)
-        for tr in trip[: (100 if tier == "quick" else 3000)]:
+        for tr in trip[: (100 if tier == "quick" else 1500)]:
             if emit(cuts_to_lengths(n, tr)):
                 yield cuts_to_lengths(n, tr)
     # several packets in one chunk
@@ -125,7 +125,7 @@ def chunkings(stream, pkts, tier, rnd):
             yield cuts_to_lengths(n, bounds[k - 1:k])
     if emit([n]):
         yield [n]
-    for _ in range((30 if n < 3000 else 6) if tier == "quick" else 400):
+    for _ in range((30 if n < 3000 else 6) if tier == "quick" else (300 if n < 3000 else 30)):
         k = rnd.randint(1, min(8, n - 1))
         cs = rnd.sample(range(1, n), k)
         if n > 3000:
